@@ -33,6 +33,9 @@ func c16Header(n int) []byte {
 // file shorter than HeaderSize+ContentSize.
 func VerifC16Reader() {
 	hdrLens := []int{3, 130}
+	if verifParam("only_long_header", 0) == 1 {
+		hdrLens = []int{130} // quick tier: the 3-byte header is exercised by C16.remote / C16.remoteread
+	}
 	H := hdrLens[verifChoice("header_len", len(hdrLens))]
 	header := c16Header(H)
 	prefixed := binary.AppendUvarint(nil, uint64(H))
